@@ -93,7 +93,7 @@ func main() {
 		eng: &Engine{tids: map[string]int64{}, tidTypes: map[int64]types.Type{}, prog: prog}, cs: cs, prog: prog, pkgs: pkgs, prop: *prop,
 		notes: map[string]bool{}, globals: map[*ssa.Global]*Term{}, loopCache: map[*ssa.Function]map[*ssa.BasicBlock]*loopInfo{},
 		usedContracts: map[string]bool{}, usedModels: map[string]bool{}, unknownCalls: map[string]int{}, havocCalls: map[string]int{},
-		inlined: map[string]bool{}, maxSteps: 400000, pathsPerFn: map[string]int{},
+		inlined: map[string]bool{}, maxSteps: 400000, pathsPerFn: map[string]int{}, pkgInitDone: map[string]bool{},
 	}
 	findings := loadFindings(filepath.Join(*vdir, "known_findings.json"))
 	v.findings = findings
@@ -104,6 +104,7 @@ func main() {
 			missing = append(missing, c.Key)
 			continue
 		}
+		v.checkPkgInits(c.Pkg)
 		if err := v.verifyFunc(c, fn); err != nil {
 			v.errors = append(v.errors, err.Error())
 			v.obls = append(v.obls, &Obligation{Prop: *prop, Func: c.Key, Clause: "translatable", Kind: "engine", Status: "undecided", Model: err.Error(), Goal: False})
